@@ -21,6 +21,29 @@
 // Call instructions (re-entrant locking shows up in the model), calls through interface-typed fields
 // are a read or a write of that field's object according to a table of mutating method names that is
 // cross-checked against the bodies of the concrete implementations in eth2/forkchoice/proto.
+//
+// Handled: named and embedded sync.Mutex / sync.RWMutex (also x.parent.mu of the parent instance); defer of lock
+// operations, of function literals and of other calls (run at return, LIFO); if / else, switch, type switch, for
+// and range (zero or one iteration, break / continue), return, panic, short-circuit && and ||; plain and compound
+// assignments, ++ / --, map and slice element stores, delete / clear / copy / append / len / cap; per-path
+// aliases of reference-typed fields and elements (`existing := ap.aggregate[k]`, range values,
+// `subsByRoot = sp.prevContribs`); fields of sync/atomic type are skipped; the immutable-after-construction list
+// is verified (a listed field that some method writes is modelled as a normal field, with a warning); append on a
+// slice of struct VALUES of another component reads the elements' fields (slice growth copies them); element
+// handles handed out by a method (PubkeyCache.Pubkey -> *CachedPubkey) give synthetic methods "Pubkey.Pubkey".
+// Paths are canonicalised (accesses between two lock operations are a set) and capped at 256 per method.
+//
+// Known imprecisions (all on the safe side for the verdict: a spurious model counterexample that the real code
+// does not reproduce is an InfraError, never a VIOLATION; a missed one is still open to part B):
+//   - no type information: aliases through helper parameters / results (`n, err := pr.getNode(i)`) are not
+//     followed, and a method call on (part of) a field's value is a READ of the field even if the method has a
+//     pointer receiver and mutates;
+//   - one abstract location per field (all map entries / slice elements together);
+//   - branch conditions are ignored: every combination of branch outcomes is a path;
+//   - callbacks passed in by the caller (justifiedStateBalances, the prune sink) are assumed not to touch the
+//     component; function literals are analysed as if they ran where they are written;
+//   - go statements, channels, sync.Cond, sync.Once, TryLock are not modelled (a warning is emitted);
+//   - instances: the receiver, its parent and instances created inside the call; no grandparents.
 package main
 
 import (
